@@ -506,9 +506,9 @@ func shrinkAndWrite(t *testing.T, p *Property, sc *Scenario, cfg *WorkerCfg, run
 	orig := len(vals)
 	attempts, accepted := 0, 0
 	shrinkStart := time.Now()
-	budget := 45 * time.Second
+	budget := 12 * time.Second
 	if cfg.Tier == "thorough" {
-		budget = 120 * time.Second
+		budget = 90 * time.Second
 	}
 	try := func(cand []uint64) bool {
 		if time.Since(shrinkStart) > budget || attempts > 4000 {
@@ -623,7 +623,7 @@ func writeReplay(p *Property, sc *Scenario, cfg *WorkerCfg, run, seed uint64, va
 	if rf.Trace == nil {
 		rf.Trace = []string{}
 	}
-	name := fmt.Sprintf("%s-%d-%d-%016x.json", p.ID, cfg.Seed, run, HashString(sig)^fc.Hash)
+	name := fmt.Sprintf("%s-%s-%d-%d-%016x.json", p.ID, cfg.Build, cfg.Seed, run, HashString(sig)^fc.Hash)
 	_ = os.MkdirAll(cfg.ReplayDir, 0o755)
 	rf.path = cfg.ReplayDir + "/" + name
 	b, _ := json.MarshalIndent(rf.ReplayFile, "", " ")
